@@ -4,3 +4,4 @@ import BezierVerif.DriverMain
 import BezierVerif.Props.C01
 import BezierVerif.Props.C09
 import BezierVerif.Props.C10
+import BezierVerif.Props.C19
